@@ -7,7 +7,7 @@
 (* Input: ndjson file named by environment variable RECORDS with records     *)
 (* {k: "patch" | "merge", from, to, p}  (p = ["none"] for a NULL merge patch) *)
 (***************************************************************************)
-EXTENDS Patch, TLC, Json, IOUtils
+EXTENDS PatchImpl, TLC, Json, IOUtils
 
 Cases == ndJsonDeserialize(IOEnv.RECORDS)
 
@@ -19,7 +19,16 @@ FromJV(x) ==
     [] x[1] = "o" -> VObj([i \in DOMAIN x[2] |-> <<x[2][i][1], FromJV(x[2][i][2])>>])
     [] OTHER -> Mk("invalid")
 
+KeyLessCS(x, y, cs) == IF cs THEN KeyLessB(x, y) ELSE KeyLessB(FoldB(x), FoldB(y))
+\* recorded outcome of cJSONUtils_SortObject[CaseSensitive]: member i of "before" carried key before[i]; "after" lists
+\* the members (by their original position) in the new order
+SortVerdict(c) ==
+  LET n == Len(c.before) IN
+  /\ Len(c.after) = n /\ {c.after[i] : i \in 1..n} = 1..n                                 \* exactly the same member nodes
+  /\ \A i \in 1..(n - 1) : ~KeyLessCS(c.before[c.after[i + 1]], c.before[c.after[i]], c.cs)   \* keys non-decreasing
+
 Verdict(c) ==
+  IF c.k = "sort" THEN SortVerdict(c) ELSE
   LET from == FromJV(c.from) to == FromJV(c.to) IN
   IF c.k = "patch"
   THEN LET p == FromJV(c.p) r == ApplyRFC(from, p) IN
